@@ -112,6 +112,22 @@ func runLoaderCase(root string, c *loaderCase, n int) {
 		case "txt":
 			write(d+"/notes.txt", cfgText(99, 3, 0x1234, 0x5678, 0x0111))
 			write(d+"/README", "hello")
+		case "dotfiles":
+			// non-TOML files whose names sort before every configuration (editor swap files, desktop metadata)
+			write(d+"/.directory", "[Desktop Entry]\nIcon=folder\n")
+			write(d+"/.0_default.toml.swp", "b0VIM 8.2")
+			write(d+"/!first", "x")
+			write(d+"/#tmp#", "y")
+		case "hidden_dir":
+			os.MkdirAll(filepath.Join(dir, "hidi-config", d, ".git", "objects"), 0o777)
+			write(d+"/.git/config", "[core]\n")
+			write(d+"/.git/objects/pack.txt", "z")
+			os.MkdirAll(filepath.Join(dir, "hidi-config", d, "0_dir"), 0o777)
+		case "odd_names":
+			write(d+"/.toml", "x = [")
+			write(d+"/a.toml.bak", cfgText(98, 3, 0x1234, 0x5678, 0x0111))
+			write(d+"/toml", cfgText(97, 0, 0, 0, 0))
+			write(d+"/ spaced .txt", "q")
 		case "nested_broken":
 			os.MkdirAll(filepath.Join(dir, "hidi-config", d, "sub", "deeper"), 0o777)
 			write(d+"/sub/deeper/broken.toml", "x = [")
@@ -173,7 +189,7 @@ func cmdLoader(args []string) error {
 	defer w.Flush()
 	enc := json.NewEncoder(w)
 	types := []string{"Keyboard", "Joystick", "Mouse", "Unknown"}
-	junks := []string{"none", "broken", "decoder_panic", "txt", "nested_broken", "foreign", "nested_foreign"}
+	junks := []string{"none", "broken", "decoder_panic", "txt", "nested_broken", "foreign", "nested_foreign", "dotfiles", "hidden_dir", "odd_names"}
 	missings := [][]string{{}, {"factory/gamepad"}, {"factory/keyboard"}, {"user/gamepad"}, {"user/keyboard"},
 		{"user/gamepad", "user/keyboard"}, {"factory/gamepad", "factory/keyboard", "user/gamepad", "user/keyboard"}}
 	mk := func(bits int, t, j string, m []string) *loaderCase {
